@@ -89,6 +89,24 @@ def run_units(units, seed, twin=False):
     return results
 
 
+def global_verify_map():
+    """function path -> units (of units/*.toml) whose verify list contains it"""
+    import glob
+    from assemble import load_unit
+    m = {}
+    for f in sorted(glob.glob(os.path.join(VERIF, "units", "*.toml"))):
+        n = os.path.basename(f)[:-5]
+        if n == "properties":
+            continue
+        try:
+            u = load_unit(n)
+        except Exception:
+            continue
+        for p in u.get("verify", []):
+            m.setdefault(p, []).append(n)
+    return m
+
+
 def contract_labels_of(fnp):
     import glob
     from assemble import parse_vc
@@ -290,6 +308,12 @@ def check_property(prop, tier, seed):
         rewrites.extend(r["rewrites"])
     fn_under_contract = sorted({p for r in results.values() if not isinstance(r, Undecided) for p in r["verify_list"]})
     fn_assumed = sorted({p for r in results.values() if not isinstance(r, Undecided) for p in r["assume_list"]} - set(fn_under_contract))
+    # audit of the assumed contracts of this run against ALL units: verified elsewhere (named) or verified nowhere (a genuinely trusted contract)
+    verified_in = global_verify_map()
+    fn_assumed_elsewhere = {p: verified_in[p] for p in fn_assumed if p in verified_in}
+    fn_assumed_nowhere = [p for p in fn_assumed if p not in verified_in]
+    if fn_assumed_nowhere:
+        assumptions.append("contracts assumed in this run and verified in NO unit (trusted): " + ", ".join(fn_assumed_nowhere))
     smt_ms = sum(f["ms"] for r in results.values() if not isinstance(r, Undecided) for f in r["functions"])
     slow = sorted([f for r in results.values() if not isinstance(r, Undecided) for f in r["functions"]], key=lambda x: -x["ms"])[:8]
     # obligations of THIS property: every Verus function-level query that verified, plus the queries with a
@@ -320,6 +344,8 @@ def check_property(prop, tier, seed):
             "deciding_labels_waived_known_findings": waived,
             "functions_under_contract_verified_bodies": fn_under_contract,
             "functions_with_assumed_contract_in_this_run": fn_assumed,
+            "assumed_here_but_body_verified_in_unit": fn_assumed_elsewhere,
+            "assumed_and_verified_in_no_unit": fn_assumed_nowhere,
             "verus_function_queries": nfun,
             "smt_time_ms_total": smt_ms,
             "slowest_functions": [{"function": s["function"], "ms": s["ms"], "rlimit": s["rlimit"]} for s in slow],
